@@ -159,6 +159,8 @@ PLAN = {
               EXH('reads', 1, sample=2, merge_reads=150, GPrefix='<- R_PrefixW'),
               SIM('sim', 30, 30)],
         random=dict(traces=160, length=80),
+        mc=[('KVStore_enc.cfg', {'ESteps': '6'}, 'clean'),
+            ('KVStore_enc_known.cfg', {}, 'Invariant Refines is violated')],
         budget_s=170),
     'thorough': dict(
         gens=[EXH('order', 5, sample=40), EXH('order', 4, sample=4, nav='meta'),
@@ -169,6 +171,10 @@ PLAN = {
               EXH('reads', 1, merge_reads=150, GPrefix='<- R_PrefixW'),
               SIM('sim', 500, 40)],
         random=dict(traces=2400, length=140),
+        mc=[('KVStore_enc.cfg', {'ESteps': '7'}, 'clean'),
+            ('KVStore_enc.cfg', {'ESteps': '6', 'EVals': '<- E_Vals', 'ENames': '<- E_NamesX'}, 'clean'),
+            ('KVStore_enc_known.cfg', {}, 'Invariant Refines is violated'),
+            ('KVStore_enc_nonames.cfg', {}, 'Invariant Refines is violated')],
         budget_s=1700),
 }
 
@@ -319,7 +325,7 @@ def binding_demo(files, enabled, scratch):
                 if want_kind == 'val' and l.get('t') == 'op' and l['res']['c'] == 'val' and l['res']['x']:
                     l['res']['x'][0] = (l['res']['x'][0] + 1) % 256
                     what = 'one byte of a value returned by Get changed'
-                elif want_kind == 'ents' and l.get('t') == 'op' and l['a'] in ('iter', 'iterp') and l['res']['c'] == 'ents' and len(l['res']['x']) >= 2:
+                elif want_kind == 'ents' and l.get('t') == 'op' and l['a'] in ('iter', 'iterp') and l['res']['c'] == 'ents' and len(l['res']['x']) >= 2 and l['res']['x'][0] != l['res']['x'][1]:
                     l['res']['x'][0], l['res']['x'][1] = l['res']['x'][1], l['res']['x'][0]
                     what = 'two entries returned by an iterator swapped'
                 elif want_kind == 'obs' and l.get('t') == 'obs' and l['via'] == 'r' and l['how'] == 'pget' and any(g['e'] for g in l['got']):
@@ -360,12 +366,29 @@ def check(pid, tier, scratch, replay):
 
     plan = PLAN[tier if tier in PLAN else 'quick']
 
-    # 1. generation: TLC enumerates / simulates the behaviours of every theme
+    # 1. the design-level model (KVStoreEnc: encoding + batch overlay refine the reference map) and
+    #    generation: TLC enumerates / simulates the behaviours of every theme
     gens = plan['gens']
     with ThreadPoolExecutor(max_workers=5) as ex:
+        mfuts = [(cfg, ov, expect, ex.submit(vlib.tlc, cfg, 'KVStoreEncMC.tla', scratch, overrides=ov, workers=6, timeout=2400))
+                 for (cfg, ov, expect) in plan['mc'] if cfg != 'KVStore_enc_known.cfg' or 'K-C11-1' in enabled]
         futs = [ex.submit(run_gen, g, scratch, seed_ * 7919 + i) for i, g in enumerate(gens)]
         gruns = [f.result() for f in futs]
+        mruns = [(cfg, ov, expect, f.result()) for (cfg, ov, expect, f) in mfuts]
     jobs, gen_runs, states, transitions = [], [], 0, 0
+    mc_runs = []
+    for cfg, ov, expect, r in mruns:
+        if expect == 'clean':
+            vlib.require_clean(r, 'design model %s' % cfg)
+            states += r.get('distinct', 0)
+            transitions += r.get('generated', 0)
+        else:
+            # a configuration that states a defect of the design (known finding at model level, or a
+            # deliberately broken design): TLC must find the violation, otherwise the model checks nothing
+            if r['rc'] == 124 or r['error'] or not r['violated'] or expect not in r['violated']:
+                raise Infra('design model %s: expected "%s", got %s\n%s' % (cfg, expect, r['violated'], r['log'][-1500:]))
+        mc_runs.append(dict(cfg=cfg, overrides=ov, expected=expect, outcome=r['violated'] or 'no violation',
+                            distinct=r.get('distinct'), generated=r.get('generated'), wall_s=round(r['wall'], 1)))
     for i, (g, r) in enumerate(zip(gens, gruns)):
         tag = '%s-d%d-%s-%d' % (g['theme'], g['depth'], g['nav'], i)
         js_, nh = jobs_of(g, r, tag)
@@ -421,7 +444,7 @@ def check(pid, tier, scratch, replay):
     # second opinion: the Go comparison of the generated behaviours must agree with TLC, per behaviour
     disagree = []
     for j, r in zip(jobs, results):
-        go_new = any(not d.get('known') or d['known'] not in enabled for d in r.get('diffs', []))
+        go_new = r.get('new_diffs', 0) > 0 or any(k not in enabled for k in r.get('known_ids', []))
         go_any = bool(r.get('diffs'))
         tl = by_id.get(j['id'], [])
         tl_new = any(d['known'] == '' for d in tl)
@@ -444,11 +467,14 @@ def check(pid, tier, scratch, replay):
             j = job_by_id[tid]
             # reproduce alone before calling it a violation
             again, _ = run_replay(binary, [j], scratch, 'again-%s' % vlib.short_hash(tid))
-            if not again[0] or not any(not d.get('known') or d['known'] not in enabled for d in again[0].get('diffs', [])):
+            if not again[0] or not (again[0].get('new_diffs', 0) > 0 or any(k not in enabled for k in again[0].get('known_ids', []))):
                 raise Infra('deviation of %s did not reproduce when replayed alone' % tid)
             obj = dict(property=pid, kind='gen', job=dict(id=j['id'], nav=j['nav'], u=j['u'], h=j['h']), source=j['src'],
                        deviation=first, go_diffs=again[0].get('diffs'), how='bin/check %s %s --replay <this file>' % (pid, tier))
             hist = describe(j['h'])
+            nd = [d for d in again[0].get('diffs', []) if not d.get('known') or d['known'] not in enabled]
+            if nd:
+                hist = 'failing step %d: %s | %s' % (nd[0]['step'], describe_op(j['h'][nd[0]['step']]), hist)
         else:
             m = re.match(r'rnd-(\d+)-(\d+)$', tid)
             obj = dict(property=pid, kind='random', seed=int(m.group(1)), index=int(m.group(2)), length=rp['length'],
@@ -482,7 +508,7 @@ def check(pid, tier, scratch, replay):
 
     # 6. binding demonstration (thorough): a corrupted record must be rejected by TLC
     demos = []
-    if tier == 'thorough':
+    if tier == 'thorough' or os.environ.get('VERIF_C11_DEMO'):
         clean_files = [f for f in gfiles + rfiles]
         demos = binding_demo(clean_files, enabled, scratch)
         if not all(d['rejected'] for d in demos):
@@ -521,7 +547,7 @@ def check(pid, tier, scratch, replay):
                known_finding_hits={k: len(v) for k, v in known_hits.items()}, known_findings_not_reproduced=stale,
                known_patterns_enabled=enabled,
                recorded_operation_result_counts=dict(sorted(stats.items())),
-               generator_runs=gen_runs, binding_demonstrations=demos, exhaustive=False,
+               design_model_runs=mc_runs, generator_runs=gen_runs, binding_demonstrations=demos, exhaustive=False,
                phase_wall_s=dict(generate=round(t_gen, 1), replay=round(t_replay, 1), random=round(t_rand, 1), judge=round(t_judge, 1)),
                rule='generated: every operation sequence of the stated depth after the theme\'s scripted prefix (exhaustive TLC enumeration; "emitted_1_in" = deterministic hash sample taken inside the enumeration) or -simulate random sequences; random: seeded Go driver with arbitrary binary keys/values/names.  Each is executed on a fresh real LevelDB store; every operation result and, after every free step, the whole store read back by listing / point reads / prefix read / iteration through a read transaction and through the open write transaction is judged by TLC (KVStoreTrace) against the reference map',
                decides='atomic commit; rollback and error return (db.Update) leave no trace; reads, prefix reads, listings and bucket lookups inside the write transaction reflect its own puts/deletes/clears/bucket creations and deletions; uncommitted writes invisible to read transactions; isolation between buckets for adversarial keys and names; exact ascending iteration / prefix iteration / range + seek over committed entries; persistence across close/reopen; error class and no effect for illegal names, empty keys, empty values, top-level delete',
